@@ -169,7 +169,7 @@ def replay(header, obs, backend="lambda", seed=0, compare_fresh=True):
         first_after = False
         exp, sc = live.expected(step)
         try:
-            got = build.evaluate(live.m, e, X, T, 2, live.np, ne).reshape(-1)
+            got = build.evaluate(live.m, e, X, T, 2, live.np, ne, tform=(c % 2 == 1)).reshape(-1)
         except Exception as ex:
             return {"step": c, "what": "evaluation raised", "e": e, "detail": repr(ex)[:300]}, pairs
         compiled.add(e)
